@@ -147,13 +147,19 @@ Definition interp (tmp final : str) (chunks : list (list N)) (k : stepk) : list 
 Definition interps (tmp final : str) (chunks : list (list N)) (ks : list stepk) : list op :=
   flat_map (interp tmp final chunks) ks.
 
-Inductive outcome := Done | SrcError.      (* how the block stream ended after `blocks` *)
+(* how the block stream ended after `blocks`: EOF | the source's read() failed (remote exception, disconnect) |
+   the source answered with something f.write() rejects (str, int, object ...: the write raises, nothing is written) *)
+Inductive outcome := Done | SrcError | BadBlock.
 
 (* FileUploader.remote_putfile once the name is accepted: final = targetdir/child, tmp = final + ".partial" *)
 Definition upload_ops (final : str) (blocks : list (list N)) (oc : outcome) : list op :=
   let tmp := final ++ putfile_tmp_ext in
   interps tmp final blocks putfile_main ++
-  interps tmp final blocks (match oc with Done => putfile_done | SrcError => putfile_err end).
+  interps tmp final blocks (match oc with
+                            | Done => putfile_done
+                            | SrcError => putfile_err
+                            | BadBlock => if reader_write_error_handled then putfile_err else []   (* else: stuck for ever *)
+                            end).
 
 (* the whole service call: None = the name is refused before any file operation *)
 Definition putfile (cwd base name : str) (blocks : list (list N)) (oc : outcome) : option (list op) :=
@@ -170,7 +176,10 @@ Definition registry_ops (basedir : str) (chunks : list (list N)) : list op :=
 
 (* IncidentObserver._got_incident: the file that is written for a remote-supplied incident name *)
 Definition gatherer_path (cwd base name : str) : option str :=
-  option_map (fun p => p ++ gatherer_ext) (guarded gatherer_guard cwd base name).
+  option_map (fun p => match gatherer_path_source with
+                       | FromValidated => p ++ gatherer_ext
+                       | FromRawName => join base (name ++ gatherer_ext)     (* what the kernel is handed *)
+                       end) (guarded gatherer_guard cwd base name).
 
 (* LogPublisher.remote_get_incident: the files that may be read (first the .bz2 one); None = KeyError/InsecurePath *)
 Definition publisher_paths (cwd base name : str) : option (list str) :=
